@@ -66,6 +66,30 @@ fn lsp_sweep(text: &str, fails: &mut Vec<(String, PanicInfo)>, transitions: &mut
                     }) {
                         fails.push(("didSave".into(), p));
                     }
+                    // requests that read the reference index of a server that has seen edits (the
+                    // index keeps what earlier versions left behind)
+                    for k in [DOC, "2"] {
+                        *transitions += 2;
+                        if let Err(p) = guarded(|| {
+                            s.handle_references(ReferenceParams {
+                                text_document_position: TextDocumentPositionParams { text_document: TextDocumentIdentifier { uri: uri(k) }, position: Position::new(0, 0) },
+                                context: ReferenceContext { include_declaration: false },
+                                work_done_progress_params: Default::default(),
+                                partial_result_params: Default::default(),
+                            })
+                        }) {
+                            fails.push(("references(after edits)".into(), p));
+                        }
+                        if let Err(p) = guarded(|| {
+                            s.handle_inlay_hints(InlayHintParams {
+                                text_document: TextDocumentIdentifier { uri: uri(k) },
+                                range: Range::new(Position::new(0, 0), Position::new(1000, 0)),
+                                work_done_progress_params: Default::default(),
+                            })
+                        }) {
+                            fails.push(("inlayHint(after edits)".into(), p));
+                        }
+                    }
                 }
             }
         }
@@ -180,7 +204,8 @@ pub fn doc_lib_features(text: &str) -> Vec<String> {
 }
 
 fn c03_run_doc(text: &str) -> CaseResult {
-    let feats = doc_lib_features(text);
+    // (features come from the reference parser; a text it cannot read has none, iwe is swept anyway)
+    let feats = guarded(|| doc_lib_features(text)).unwrap_or_default();
     let mut fails: Vec<(String, PanicInfo)> = vec![];
     let mut tr = 0u64;
     tr += 1;
@@ -328,6 +353,15 @@ fn c03_run_scale(text: &str) -> CaseResult {
     CaseResult { transitions: tr, nontrivial: true, outcome: if failures.is_empty() { "ok".into() } else { format!("panic:{}", failures[0].site) }, failures, ..Default::default() }
 }
 
+/// the reference parser itself gives up on a few texts (pulldown-cmark 0.13 unwraps a `None` on
+/// `>- [x]:y\n\t`): there is nothing to compare such a text with
+fn reference_parser_panics(text: &str) -> bool {
+    guarded(|| {
+        let _ = extract(text);
+    })
+    .is_err()
+}
+
 // ====================================================================== C01
 
 pub struct C01;
@@ -376,6 +410,9 @@ impl Engine for C01 {
     }
     fn run(&self, case: &str, _ctx: &Ctx) -> CaseResult {
         let text = case;
+        if reference_parser_panics(text) {
+            return CaseResult { transitions: 1, outcome: "reference-parser-panics-skip".into(), ..Default::default() };
+        }
         let mut tr = 0u64;
         let mut failures: Vec<Failure> = vec![];
         let mut nontrivial = false;
@@ -448,6 +485,9 @@ impl Engine for C02 {
     }
     fn run(&self, case: &str, _ctx: &Ctx) -> CaseResult {
         let text = case;
+        if reference_parser_panics(text) {
+            return CaseResult { transitions: 1, outcome: "reference-parser-panics-skip".into(), ..Default::default() };
+        }
         let feats = doc_features(text);
         let mut tr = 0u64;
         let mut failures: Vec<Failure> = vec![];
@@ -606,6 +646,7 @@ impl Engine for C07 {
         space::ordered_list_docs(ns, emit);
         space::wide_container_docs(emit);
         space::sibling_run_docs(emit);
+        space::blank_nested_docs(emit);
         if thorough {
             space::block_docs(5, 3, 4, false, emit);
             space::block_docs(4, 3, 4, true, emit);
@@ -618,6 +659,9 @@ impl Engine for C07 {
     }
     fn run(&self, case: &str, _ctx: &Ctx) -> CaseResult {
         let text = case;
+        if reference_parser_panics(text) {
+            return CaseResult { transitions: 1, outcome: "reference-parser-panics-skip".into(), ..Default::default() };
+        }
         let feats = doc_features(text);
         let Ok(out) = p1(DOC, text, "") else {
             return CaseResult { outcome: "panic-skip".into(), transitions: 1, ..Default::default() };
